@@ -57,14 +57,14 @@ theorem failed_scope_creation_is_closed (beh : Beh) (st : State) (parent : Optio
 /-- FAILED BUILD: when a singleton constructor fails, Build closes the partially created provider —
 root scope first, then the singletons created so far -/
 theorem failed_build_is_cleaned_up (beh : Beh) (descs : List Desc) (order : List Nat) (e : Err)
-    (h : (createSingletons beh (newScope beh { descs := descs } none 0 false).1 order).2 = .error e) :
+    (h : (createSingletons beh (newScope beh { descs := descs, next := firstFresh descs } none 0 false).1 order).2 = .error e) :
     (buildRuntime beh descs order).1 =
-      (closeProvider beh id (createSingletons beh (newScope beh { descs := descs } none 0 false).1 order).1).1 := by
+      (closeProvider beh id (createSingletons beh (newScope beh { descs := descs, next := firstFresh descs } none 0 false).1 order).1).1 := by
   unfold buildRuntime
-  have hn : newScope beh { descs := descs } none 0 false = (allocScope { descs := descs } none 0, .ok 0) := by
+  have hn : newScope beh { descs := descs, next := firstFresh descs } none 0 false = (allocScope { descs := descs, next := firstFresh descs } none 0, .ok 0) := by
     unfold newScope; simp
   simp only [hn] at h ⊢
-  generalize createSingletons beh (allocScope { descs := descs } none 0) order = r at h
+  generalize createSingletons beh (allocScope { descs := descs, next := firstFresh descs } none 0) order = r at h
   obtain ⟨st2, res⟩ := r
   simp only [] at h
   subst h
